@@ -11,18 +11,33 @@
 EXTENDS Store, Json
 
 CONSTANTS Depth,
-          EndMarker   \* TRUE: the last event of every history is a fixed Read (one printed history per simulated trace)
+          EndMarker,  \* TRUE: the last event of every history is a fixed Read (one printed history per simulated trace)
+          SlotKeys,   \* [Slots -> SUBSET Keys]: the indexes offered to each slot (directed scenarios; Keys for all = undirected)
+          Asc, Desc,  \* slots whose adds come in strictly ascending / descending index order (canonical order of a set of adds)
+          Pairs       \* the <<source, receiver>> pairs offered to Merge/CopyTo/EncDec/Proto; {} = all
 
 VARIABLE hist
 
 GenInit == Init /\ hist = <<>>
+
+\* A directed scenario restricts which events of Store!Next are offered; it never changes what an event does.
+\* Deep trees (7+ events) over the whole event alphabet are out of reach; restricting each slot to the part it
+\* plays (a narrow receiver, a wide argument filled in canonical order, one merge direction) reaches the
+\* multi-step shapes the array code distinguishes (where the array offset sits relative to the merged range).
+AddOps == {"Add", "AddWithCount", "AddBin", "AddRepeat"}
+Directed(e, L) ==
+  /\ e.op \in AddOps =>
+       /\ e.i \in SlotKeys[e.s]
+       /\ e.s \in Asc  => \A k \in DOMAIN L[e.s] : k < e.i
+       /\ e.s \in Desc => \A k \in DOMAIN L[e.s] : k > e.i
+  /\ e.op \in {"Merge", "CopyTo", "EncDec", "Proto"} => (Pairs = {} \/ <<e.s, e.t>> \in Pairs)
 
 GenNext ==
   /\ Len(hist) < Depth
   /\ IF EndMarker /\ Len(hist) = Depth - 1
      THEN /\ last' = Ev("Read", 1, 0, 0, 0, 0, 0)
           /\ UNCHANGED <<st, ledger>>
-     ELSE Next
+     ELSE Next /\ Directed(last', ledger)
   /\ hist' = Append(hist, [ev |-> last',
                             pred |-> IF EndMarker THEN <<>> ELSE [s \in Slots |-> Obs(st'[s])]])
 
